@@ -116,6 +116,8 @@ type vWorld struct {
 	spendableAsked, receivableAsked, balanceAsked bool
 	narrow                                        *SwapData // when set, height answers are pinned to this swap's start height
 	storeRef                                      *vStore
+	// narrowOffset is added to the pinned height ("the chain has advanced by this much")
+	narrowOffset uint32
 }
 
 func newWorld() *vWorld {
@@ -281,7 +283,7 @@ func (t *vWatcher) GetBlockHeight() (uint32, error) {
 	if t.w.narrow != nil {
 		// history harnesses: the chain sits at the swap's start height (inside every payment window);
 		// window arithmetic over all heights is the subject of the C04/C05 action harnesses
-		h := t.w.narrow.StartingBlockHeight
+		h := t.w.narrow.StartingBlockHeight + t.w.narrowOffset
 		t.w.lastHeight = h
 		t.w.heightCount++
 		t.w.heightSeen = true
